@@ -25,13 +25,29 @@ def run(rep, pdb, tier):
                 nd = norm_def(t)
                 if nd is not None:
                     divs.append((n, nd[1]))
+        # a divisor named in one place and (an immutable `let`) inlined in another is one divisor
+        def _norm_div(d):
+            if d[0] == "var":
+                dd = ctx.def_term(d)
+                from .c08 import repaired_norm as _rn
+                if dd is not None and _rn(dd) is not None:
+                    return dd
+            return d
+        if len({d for _, d in divs}) > 1:
+            divs = [(n_, _norm_div(d)) for n_, d in divs]
         dvars = {d for _, d in divs}
         rule = "the divisor of every residual normalisation is a local that, after its definition from norm_2(), passes `if n == 0.0 { n = 1.0 }` before its first use as divisor"
         ok, det = len(dvars) == 1 and list(dvars)[0][0] == "var" and len(divs) >= 1, "normalisation divisors: %s" % [show(d, ctx) for d in dvars]
         from .c08 import repaired_norm
         if len(dvars) == 1 and len(divs) >= 1 and repaired_norm(list(dvars)[0]) is not None:
             N = repaired_norm(list(dvars)[0])
-            ok = N[0] == "call" and str(N[1]).endswith("::norm_2")
+
+            def _all_norms(t):
+                # N itself, or a selection among norms (`match itol { 1 => b.norm_2(), 2 => z.norm_2(), _ => panic!() }`)
+                if t[0] == "ite":
+                    return all(_all_norms(x) for x in t[2:] if x[0] != "diverge")
+                return t[0] == "call" and str(t[1]).endswith("::norm_2")
+            ok = _all_norms(N)
             det = "divisor is the repaired expression `if N == 0 { c } else { N }`, N = %s" % show(N, ctx)
         elif ok:
             from .c08 import copy_source
